@@ -2,17 +2,29 @@
 //
 // Bounded-exhaustive: ALL universes over P projects x V versions in which every
 // (project, version) requires at most one version of each other project, x every root
-// requirement set with at most one version per project. Each pair is resolved by the real
-// mvs.BuildList five times — cold cache, same resolver again, new resolver on the warm cache
-// directory, root requirement names renamed, and a second cold cache with every dawn.toml's
-// declaration order (and the tag listing order) reversed — and compared with an independent
-// breadth-first reachability + semver-maximum reference.
+// requirement set with at most one version per project, plus every root set that names ONE
+// project under two or three requirement names at different versions. Each pair is resolved
+// by the real mvs.BuildList five times — cold cache, same resolver again, new resolver on the
+// warm cache directory, root requirement names renamed, and a second cold cache with every
+// dawn.toml's declaration order (and the tag listing order) reversed — (eight times when a
+// project is named twice: Go's map iteration order is random) and compared with an
+// independent breadth-first reachability + semver-maximum reference.
+//
+// Family "interrupted fetch": single-project repositories whose checkout is written one file
+// at a time (a stale legacy .dawnconfig with different requirements first, then dawn.toml,
+// then ordinary files). For every reachable project version and every k, a CHILD PROCESS
+// downloads it into the shared cache directory and really dies after the k-th file; then
+// the parent resolves with a fresh Resolver on that cache directory. And without a crash: a
+// second Resolver resolves while the first one's download is parked between two files.
 package main
 
 import (
 	"context"
+	"encoding/json"
+	"flag"
 	"fmt"
 	"os"
+	"os/exec"
 	"path/filepath"
 	"sort"
 	"time"
@@ -23,6 +35,8 @@ import (
 	"github.com/pgavlin/dawn/internal/verif/vlib"
 	"golang.org/x/mod/semver"
 )
+
+var fChild = flag.String("c10-child", "", "internal: crash child specification file")
 
 type item struct {
 	fam    int
@@ -49,17 +63,44 @@ func natName(p string) string {
 	return n
 }
 
-func config(roots []mvsfake.Req, renamed bool) *project.Config {
+// config builds the root configuration. A project named more than once gets the names
+// <base>, <base>_2, <base>_3. flip inserts the requirements into the map in reverse order
+// (the iteration order of a small Go map is a random rotation of its insertion order).
+func config(roots []mvsfake.Req, renamed, flip bool) *project.Config {
 	c := &project.Config{Requirements: map[string]project.RequirementConfig{}}
+	names := make([]string, len(roots))
+	seen := map[string]int{}
 	for i, r := range roots {
 		name := natName(r.Path)
+		seen[r.Path]++
+		if n := seen[r.Path]; n > 1 {
+			name = fmt.Sprintf("%s_%d", name, n)
+		}
 		if renamed {
 			// names whose sorted order is the reverse of the path order, and that are not paths' base names
 			name = fmt.Sprintf("z%d", len(roots)-i)
 		}
-		c.Requirements[name] = project.RequirementConfig{Path: r.Path, Version: r.Version}
+		names[i] = name
+	}
+	for k := range roots {
+		i := k
+		if flip {
+			i = len(roots) - 1 - k
+		}
+		c.Requirements[names[i]] = project.RequirementConfig{Path: roots[i].Path, Version: roots[i].Version}
 	}
 	return c
+}
+
+func hasDup(roots []mvsfake.Req) bool {
+	seen := map[string]bool{}
+	for _, r := range roots {
+		if seen[r.Path] {
+			return true
+		}
+		seen[r.Path] = true
+	}
+	return false
 }
 
 // diff names the first discrepancy between a result and the reference.
@@ -94,7 +135,297 @@ func diff(got, want map[string]string) (string, string) {
 	return "", ""
 }
 
+// ---- crash child --------------------------------------------------------------------------------
+
+type childSpec struct {
+	Universe *mvsfake.Universe `json:"universe"`
+	Module   mvsfake.Req       `json:"module"`
+	DieAfter int               `json:"die_after_files"`
+	CacheDir string            `json:"cache_dir"`
+	TmpDir   string            `json:"tmp_dir"`
+}
+
+// runChild downloads one project version into the cache and dies after the k-th file.
+func runChild(path string) {
+	b, err := os.ReadFile(path)
+	if err != nil {
+		fmt.Fprintln(os.Stderr, "child:", err)
+		os.Exit(2)
+	}
+	var cs childSpec
+	if err := json.Unmarshal(b, &cs); err != nil {
+		fmt.Fprintln(os.Stderr, "child:", err)
+		os.Exit(2)
+	}
+	os.Setenv("TMPDIR", cs.TmpDir)
+	w := mvsfake.Build(cs.Universe)
+	w.SetHooks(&mvsfake.Hooks{DieAfterFiles: cs.DieAfter, ParkAfterFiles: -1})
+	res := mvs.NewResolver(cs.CacheDir, w.Dialer(), nil)
+	_, err = res.FetchProject(context.Background(), project.RequirementConfig{Path: cs.Module.Path, Version: cs.Module.Version})
+	if err != nil {
+		fmt.Fprintln(os.Stderr, "child: fetch returned:", err)
+		os.Exit(4)
+	}
+	os.Exit(0) // the crash point lies beyond the download
+}
+
+// ---- the check ------------------------------------------------------------------------------------
+
+type checker struct {
+	r   *vlib.Run
+	g   *mvsfake.Guard
+	ctx context.Context
+	n   int
+}
+
+type pairCtx struct {
+	f     *mvsfake.Family
+	ui    int64
+	u     *mvsfake.Universe
+	w     *mvsfake.World
+	roots []mvsfake.Req
+	ref   *mvsfake.BuildInfo
+	t     *mvsfake.Tally
+	size  int
+}
+
+func (p *pairCtx) rootStr() []string {
+	s := []string{}
+	for _, q := range p.roots {
+		s = append(s, q.String())
+	}
+	return s
+}
+
+func (p *pairCtx) mk(run, got string) func() any {
+	return func() any {
+		return replay{p.f.Name, p.ui, p.u.Compact(), p.rootStr(), run, got, mvsfake.FormatList(p.ref.List), p.u}
+	}
+}
+
+// resolve runs the real BuildList once. ok=false: hang/panic/error (already reported under
+// sigPrefix) or skipped.
+func (c *checker) resolve(p *pairCtx, run string, res *mvs.Resolver, cfg *project.Config, errSig string) (map[string]string, bool) {
+	out, err, st := c.g.Run(p.t, "build-list", func() (any, error) { return mvs.BuildList(c.ctx, cfg, res) })
+	p.t.Add("evaluations", 1)
+	switch st {
+	case mvsfake.Skipped:
+		return nil, false
+	case mvsfake.Hung:
+		p.t.Violation("C10:hang", p.size, fmt.Sprintf("BuildList did not return within 10s (%s), roots %v", run, p.rootStr()), p.mk(run, "no result"))
+		return nil, false
+	case mvsfake.Panicked:
+		p.t.Violation("C10:panic", p.size, fmt.Sprintf("BuildList panicked (%s): %v", run, err), p.mk(run, err.Error()))
+		return nil, false
+	}
+	if err != nil {
+		p.t.Violation(errSig, p.size, fmt.Sprintf("[%s] BuildList failed on a resolvable universe (%s), roots %v: %v", p.f.Name, run, p.rootStr(), err), p.mk(run, err.Error()))
+		return nil, false
+	}
+	got := map[string]string{}
+	for k, v := range out.(map[string]string) {
+		got[k] = v
+	}
+	// the root project reports itself as ""->"": accepted, not required
+	if v, ok := got[""]; ok {
+		if v != "" {
+			p.t.Violation("C10:root-entry", p.size, fmt.Sprintf("root entry has version %q", v), p.mk(run, mvsfake.FormatList(got)))
+		}
+		delete(got, "")
+		p.t.Add("root-self-entries", 1)
+	}
+	return got, true
+}
+
+func (c *checker) freshDir(name string) string {
+	d := filepath.Join(c.r.Scratch, name)
+	os.RemoveAll(d)
+	os.MkdirAll(d, 0o755)
+	return d
+}
+
+// pair: the 5 (8) resolutions of one (universe, roots) pair.
+func (c *checker) pair(p *pairCtx, wr **mvsfake.World) {
+	t, w, roots, ref := p.t, p.w, p.roots, p.ref
+	dup := hasDup(roots)
+	reachKeys := map[string]bool{}
+	for m := range ref.Reach {
+		reachKeys[w.FetchKey(m)] = true
+	}
+	c.n++
+	cacheDir := c.freshDir(fmt.Sprintf("cache-%d", c.n%2))
+	type runT struct {
+		name  string
+		world *mvsfake.World
+		res   *mvs.Resolver
+		cfg   *project.Config
+		cold  bool
+	}
+	res1 := mvs.NewResolver(cacheDir, w.Dialer(), nil)
+	runs := []runT{
+		{"cold", w, res1, config(roots, false, true), true},
+		{"same-resolver-again", w, res1, config(roots, false, false), false},
+		{"new-resolver-warm-cache-dir", w, mvs.NewResolver(cacheDir, w.Dialer(), nil), config(roots, false, true), false},
+		{"renamed-requirements", w, mvs.NewResolver(cacheDir, w.Dialer(), nil), config(roots, true, true), false},
+		{"reversed-declaration-order-cold", nil, nil, config(roots, false, true), true},
+	}
+	if dup {
+		// the same configuration again, with fresh resolvers: the order in which a Go map is
+		// iterated differs from run to run
+		for i := 0; i < 3; i++ {
+			runs = append(runs, runT{fmt.Sprintf("repetition-%d", i+1), w, mvs.NewResolver(cacheDir, w.Dialer(), nil), config(roots, i == 1, i != 2), false})
+		}
+	}
+	firstOK := false
+	for ri := range runs {
+		run := runs[ri]
+		if run.world == nil {
+			if *wr == nil {
+				ur := *p.u
+				ur.ReverseDecl = !p.u.ReverseDecl
+				*wr = mvsfake.Build(&ur)
+			}
+			run.world = *wr
+			run.res = mvs.NewResolver(c.freshDir(fmt.Sprintf("cache-%dr", c.n%2)), run.world.Dialer(), nil)
+		}
+		before := run.world.Fetches()
+		run.world.TakeFetchLog()
+		got, ok := c.resolve(p, run.name+" run", run.res, run.cfg, "C10:error")
+		if !ok {
+			return
+		}
+		fetched := run.world.Fetches() - before
+		if run.cold {
+			t.Add("downloads-cold", fetched)
+		} else {
+			t.Add("downloads-warm", fetched)
+		}
+		for _, l := range run.world.TakeFetchLog() {
+			if !reachKeys[l] {
+				// a download of an unreachable node: the canonical-pair reduction would be unsound
+				t.Add("downloads-beyond-reachable", 1)
+			}
+		}
+		kind, detail := diff(got, ref.List)
+		if kind == "" {
+			if ri == 0 {
+				firstOK = true
+			}
+			continue
+		}
+		sig := "C10:" + kind
+		switch {
+		case dup:
+			// cause: a project required under several names; which version wins must not depend
+			// on the order in which the requirement map happens to be iterated
+			sig = "C10:duplicate-root-path:" + kind
+		case ri > 0 && firstOK:
+			switch run.name {
+			case "same-resolver-again", "new-resolver-warm-cache-dir":
+				sig = "C10:cache-dependent"
+			case "renamed-requirements":
+				sig = "C10:name-dependent"
+			default:
+				sig = "C10:order-dependent"
+			}
+		}
+		t.Violation(sig, p.size, fmt.Sprintf("[%s, %s run] roots %v: %s; got %s", p.f.Name, run.name, p.rootStr(), detail, mvsfake.FormatList(got)), p.mk(run.name, mvsfake.FormatList(got)))
+		return
+	}
+}
+
+// interrupted: crash points and parked downloads for one (universe, roots) pair.
+func (c *checker) interrupted(p *pairCtx) {
+	t, w, ref := p.t, p.w, p.ref
+	var nodes []mvsfake.Req
+	for m := range ref.Reach {
+		nodes = append(nodes, m)
+	}
+	sort.Slice(nodes, func(i, j int) bool { return nodes[i].String() < nodes[j].String() })
+	tmp := os.Getenv("TMPDIR")
+	for _, m := range nodes {
+		nf := w.CheckoutFiles(m)
+		for k := 0; k <= nf; k++ {
+			// (1) crash: a child process dies after the k-th file of the download of m
+			cacheDir := c.freshDir("cache-crash")
+			os.RemoveAll(tmp)
+			os.MkdirAll(tmp, 0o755)
+			specPath := filepath.Join(c.r.Scratch, "child.json")
+			b, _ := json.Marshal(childSpec{Universe: p.u, Module: m, DieAfter: k, CacheDir: cacheDir, TmpDir: tmp})
+			if err := os.WriteFile(specPath, b, 0o644); err != nil {
+				vlib.Fatalf("%v", err)
+			}
+			cmd := exec.Command(os.Args[0], "-c10-child", specPath)
+			out, err := cmd.CombinedOutput()
+			code := 0
+			if ee, ok := err.(*exec.ExitError); ok {
+				code = ee.ExitCode()
+			} else if err != nil {
+				vlib.Fatalf("crash child: %v", err)
+			}
+			if code != mvsfake.DieExitCode {
+				vlib.Fatalf("crash child for %v k=%d exited with %d, expected death (%d): %s", m, k, code, mvsfake.DieExitCode, out)
+			}
+			t.Add("crash-points", 1)
+			t.Outcome("crash-classes", fmt.Sprintf("files-written=%d/%d", k, nf))
+			run := fmt.Sprintf("fresh resolver after a process died downloading %s with %d of %d files written", m, k, nf)
+			got, ok := c.resolve(p, run, mvs.NewResolver(cacheDir, w.Dialer(), nil), config(p.roots, false, false), "C10:cache-dependent:interrupted-fetch")
+			if ok {
+				if kind, detail := diff(got, ref.List); kind != "" {
+					t.Violation("C10:cache-dependent:interrupted-fetch", p.size+k, fmt.Sprintf("[%s] roots %v, %s: %s (%s); got %s", p.f.Name, p.rootStr(), run, detail, kind, mvsfake.FormatList(got)), p.mk(run, mvsfake.FormatList(got)))
+				}
+			}
+
+			// (2) no crash: a second resolver resolves while the first one's download of m is
+			// parked after the k-th file
+			cacheDir = c.freshDir("cache-park")
+			wp := mvsfake.Build(p.u)
+			h := &mvsfake.Hooks{DieAfterFiles: -1, ParkAfterFiles: k, Parked: make(chan struct{}, 1), Release: make(chan struct{})}
+			wp.SetHooks(h)
+			first := mvs.NewResolver(cacheDir, wp.Dialer(), nil)
+			done := make(chan error, 1)
+			go func() {
+				_, err := first.FetchProject(c.ctx, project.RequirementConfig{Path: m.Path, Version: m.Version})
+				done <- err
+			}()
+			select {
+			case <-h.Parked:
+			case err := <-done:
+				vlib.Fatalf("parked download of %v finished without parking: %v", m, err)
+			case <-time.After(10 * time.Second):
+				vlib.Fatalf("parked download of %v never reached file %d", m, k)
+			}
+			t.Add("interleavings", 1)
+			run = fmt.Sprintf("second resolver while another download of %s is parked with %d of %d files written", m, k, nf)
+			got, ok = c.resolve(p, run, mvs.NewResolver(cacheDir, wp.Dialer(), nil), config(p.roots, false, false), "C10:cache-dependent:concurrent-fetch")
+			close(h.Release)
+			if ok {
+				if kind, detail := diff(got, ref.List); kind != "" {
+					t.Violation("C10:cache-dependent:concurrent-fetch", p.size+k, fmt.Sprintf("[%s] roots %v, %s: %s (%s); got %s", p.f.Name, p.rootStr(), run, detail, kind, mvsfake.FormatList(got)), p.mk(run, mvsfake.FormatList(got)))
+				}
+			}
+			select {
+			case <-done:
+			case <-time.After(10 * time.Second):
+				t.Violation("C10:hang", p.size, "a released download did not finish within 10s", p.mk(run, "no result"))
+				continue
+			}
+			// and the first resolver, whose download lost the race, must also see the right answer
+			if got, ok := c.resolve(p, "first resolver after its parked download was released", first, config(p.roots, false, false), "C10:cache-dependent:concurrent-fetch"); ok {
+				if kind, detail := diff(got, ref.List); kind != "" {
+					t.Violation("C10:cache-dependent:concurrent-fetch", p.size+k, fmt.Sprintf("[%s] roots %v, first resolver after release: %s (%s); got %s", p.f.Name, p.rootStr(), detail, kind, mvsfake.FormatList(got)), p.mk(run, mvsfake.FormatList(got)))
+				}
+			}
+		}
+	}
+}
+
 func main() {
+	flag.Parse()
+	if *fChild != "" {
+		runChild(*fChild)
+		return
+	}
 	r := vlib.Start("C10")
 	if r.ReplayIn != "" {
 		vlib.Fatalf("replay files are self-describing (universe + roots); re-run the tier to reproduce")
@@ -109,29 +440,40 @@ func main() {
 	one := func(d string, a string) mvsfake.ProjectDef { return mvsfake.ProjectDef{Dir: d, Versions: []string{a}} }
 	// version pairs chosen so that semver order differs from string order / involves a pre-release / spans v0-v1
 	pa, pb := two("a", "v1.2.0", "v1.10.0"), two("b", "v1.0.0-rc.1", "v1.0.0")
-	var fams []*mvsfake.Family
+	type famT struct {
+		*mvsfake.Family
+		dupRoots    bool // also root sets that name one project several times
+		interrupted bool // the interrupted-fetch family: crash points and parked downloads
+	}
+	var fams []famT
 	if !r.Thorough() {
-		fams = []*mvsfake.Family{
-			{Name: "2x2+1", Addr: "example.com", Projects: []mvsfake.ProjectDef{pa, pb, one("c", "v1.0.0")}},
-			{Name: "2x2-split-repos", Addr: "example.com", Split: true, Projects: []mvsfake.ProjectDef{pa, pb}},
-			{Name: "majors a,c,c@v2", Addr: "example.com", Projects: []mvsfake.ProjectDef{pa, one("c", "v1.0.0"), one("c", "v2.0.0")}},
-			{Name: "majors-split", Addr: "example.com", Split: true, Projects: []mvsfake.ProjectDef{pa, one("c", "v1.0.0"), one("c", "v2.0.0")}},
+		fams = []famT{
+			{&mvsfake.Family{Name: "2x2+1", Addr: "example.com", Projects: []mvsfake.ProjectDef{pa, pb, one("c", "v1.0.0")}}, true, false},
+			{&mvsfake.Family{Name: "2x2-split-repos", Addr: "example.com", Split: true, Projects: []mvsfake.ProjectDef{pa, pb}}, true, false},
+			{&mvsfake.Family{Name: "majors a,c,c@v2", Addr: "example.com", Projects: []mvsfake.ProjectDef{pa, one("c", "v1.0.0"), one("c", "v2.0.0")}}, true, false},
+			{&mvsfake.Family{Name: "majors-split", Addr: "example.com", Split: true, Projects: []mvsfake.ProjectDef{pa, one("c", "v1.0.0"), one("c", "v2.0.0")}}, true, false},
+			{&mvsfake.Family{Name: "interrupted fetch: 2x2, one repository per project, stale .dawnconfig", Addr: "example.com", Split: true, Stale: true, Projects: []mvsfake.ProjectDef{pa, pb}}, false, true},
 		}
 	} else {
-		fams = []*mvsfake.Family{
-			{Name: "3x2", Addr: "example.com", Projects: []mvsfake.ProjectDef{pa, pb, two("c", "v0.9.0", "v1.0.0")}},
-			{Name: "majors a(2),b,c,c@v2", Addr: "example.com", Projects: []mvsfake.ProjectDef{pa, one("b", "v1.0.0"), one("c", "v1.0.0"), one("c", "v2.0.0")}},
-			{Name: "2x2+1-split-repos", Addr: "example.com", Split: true, Projects: []mvsfake.ProjectDef{pa, pb, one("c", "v1.0.0")}},
-			{Name: "majors c(2),c@v2(2),a", Addr: "github.com/o/r", Projects: []mvsfake.ProjectDef{two("c", "v1.0.0", "v1.1.0"), two("c", "v2.0.0", "v2.1.0"), one("a", "v0.1.0")}},
-			{Name: "2x3", Addr: "example.com", Projects: []mvsfake.ProjectDef{
+		fams = []famT{
+			{&mvsfake.Family{Name: "3x2", Addr: "example.com", Projects: []mvsfake.ProjectDef{pa, pb, two("c", "v0.9.0", "v1.0.0")}}, false, false},
+			{&mvsfake.Family{Name: "majors a(2),b,c,c@v2", Addr: "example.com", Projects: []mvsfake.ProjectDef{pa, one("b", "v1.0.0"), one("c", "v1.0.0"), one("c", "v2.0.0")}}, false, false},
+			{&mvsfake.Family{Name: "2x2+1-split-repos", Addr: "example.com", Split: true, Projects: []mvsfake.ProjectDef{pa, pb, one("c", "v1.0.0")}}, true, false},
+			{&mvsfake.Family{Name: "majors c(2),c@v2(2),a", Addr: "github.com/o/r", Projects: []mvsfake.ProjectDef{two("c", "v1.0.0", "v1.1.0"), two("c", "v2.0.0", "v2.1.0"), one("a", "v0.1.0")}}, true, false},
+			{&mvsfake.Family{Name: "2x3", Addr: "example.com", Projects: []mvsfake.ProjectDef{
 				{Dir: "a", Versions: []string{"v1.2.0", "v1.10.0", "v1.10.1"}},
-				{Dir: "b", Versions: []string{"v0.9.0", "v1.0.0-rc.1", "v1.0.0"}}}},
+				{Dir: "b", Versions: []string{"v0.9.0", "v1.0.0-rc.1", "v1.0.0"}}}}, true, false},
+			{&mvsfake.Family{Name: "interrupted fetch: 2x2, one repository per project, stale .dawnconfig", Addr: "example.com", Split: true, Stale: true, Projects: []mvsfake.ProjectDef{pa, pb}}, false, true},
+			{&mvsfake.Family{Name: "interrupted fetch: a(2),c,c@v2, one repository per directory, stale .dawnconfig", Addr: "example.com", Split: true, Stale: true, Projects: []mvsfake.ProjectDef{pa, one("c", "v1.0.0"), one("c", "v2.0.0")}}, false, true},
 		}
 	}
 	// items: chunks of universes, families interleaved so that a time cap cuts all of them evenly
-	const chunk = 400
 	var perFam [][]item
 	for fi, f := range fams {
+		chunk := int64(400)
+		if f.interrupted {
+			chunk = 2 // every crash point is a child process
+		}
 		var l []item
 		for lo := int64(0); lo < f.Count(); lo += chunk {
 			hi := lo + chunk
@@ -146,7 +488,6 @@ func main() {
 	for k := 0; ; k++ {
 		any := false
 		for _, l := range perFam {
-			// spread a family's chunks evenly over the whole item list
 			if k < len(l) {
 				items = append(items, l[k])
 				any = true
@@ -158,7 +499,11 @@ func main() {
 	}
 	rootSets := make([][][]mvsfake.Req, len(fams))
 	for i, f := range fams {
-		rootSets[i] = f.RootSets()
+		if f.dupRoots {
+			rootSets[i] = f.RootSetsDup()
+		} else {
+			rootSets[i] = f.RootSets()
+		}
 	}
 
 	g := mvsfake.NewGuard(r, "C10", 10*time.Second, 3)
@@ -166,8 +511,7 @@ func main() {
 		it := items[idx]
 		return map[string]any{"family": fams[it.fam].Name, "universes": []int64{it.lo, it.hi}}
 	})
-	ctx := context.Background()
-	cacheN := 0
+	c := &checker{r: r, g: g, ctx: context.Background()}
 
 	r.Distribute(len(items), func(ii int) {
 		it := items[ii]
@@ -182,18 +526,17 @@ func main() {
 		}
 		for ui := it.lo; ui < it.hi; ui++ {
 			u := f.Universe(ui)
-			var w, wr *mvsfake.World // built lazily: most pairs of a universe are not canonical
+			w := mvsfake.Build(u)
+			var wr *mvsfake.World
 			t.Add("universes", 1)
 			for _, roots := range rootSets[it.fam] {
 				t.Add("pairs-represented", 1)
-				if w == nil {
-					w = mvsfake.Build(u)
-				}
 				ref := w.RefBuildList(roots)
 				// (universe, roots) is represented by the pair in which every node that is NOT
 				// reachable from the roots has no requirements: the resolver can only learn a
 				// node's requirements by downloading it, and it is checked below that it
-				// downloads reachable nodes only.
+				// downloads reachable nodes only. (The stale .dawnconfig of the interrupted-fetch
+				// family is a function of the requirements, so it is covered by the same rule.)
 				canonical := true
 				for _, repo := range u.Repos {
 					for _, tg := range repo.Tags {
@@ -212,129 +555,20 @@ func main() {
 				if len(ref.List) >= 2 {
 					t.Add("nontrivial", 1)
 				}
-				t.Outcome("classes", fmt.Sprintf("%s: selected=%d reachable=%d conflict=%v cycle=%v", f.Name, len(ref.List), len(ref.Reach), ref.Conflict, ref.Cycle))
+				dup := hasDup(roots)
+				if dup {
+					t.Add("pairs-with-a-project-named-twice", 1)
+				}
+				t.Outcome("classes", fmt.Sprintf("%s: selected=%d reachable=%d conflict=%v cycle=%v twice=%v", f.Name, len(ref.List), len(ref.Reach), ref.Conflict, ref.Cycle, dup))
 				t.Max("reachable-nodes", int64(len(ref.Reach)))
-
-				rootStr := func() []string {
-					var s []string
-					for _, q := range roots {
-						s = append(s, q.String())
-					}
-					return s
-				}
-				size := 10*u.Edges() + len(roots)
-				mk := func(run, got string) func() any {
-					return func() any {
-						return replay{f.Name, ui, u.Compact(), rootStr(), run, got, mvsfake.FormatList(ref.List), u}
-					}
-				}
-				cacheN++
-				cacheDir := filepath.Join(r.Scratch, fmt.Sprintf("cache-%d", cacheN%2))
-				os.RemoveAll(cacheDir)
-				os.MkdirAll(cacheDir, 0o755)
-
-				reachKeys := map[string]bool{}
-				for m := range ref.Reach {
-					reachKeys[w.FetchKey(m)] = true
-				}
-				type runT struct {
-					name  string
-					world *mvsfake.World
-					res   *mvs.Resolver
-					cfg   *project.Config
-					cold  bool
-				}
-				res1 := mvs.NewResolver(cacheDir, w.Dialer(), nil)
-				runs := []runT{
-					{"cold", w, res1, config(roots, false), true},
-					{"same-resolver-again", w, res1, config(roots, false), false},
-					{"new-resolver-warm-cache-dir", w, mvs.NewResolver(cacheDir, w.Dialer(), nil), config(roots, false), false},
-					{"renamed-requirements", w, mvs.NewResolver(cacheDir, w.Dialer(), nil), config(roots, true), false},
-				}
-				var results []map[string]string
-				bad := false
-				for ri := 0; ri < 5 && !bad; ri++ {
-					if ri == 4 {
-						if wr == nil {
-							ur := *u
-							ur.ReverseDecl = !u.ReverseDecl
-							wr = mvsfake.Build(&ur)
-						}
-						cacheDir2 := cacheDir + "r"
-						os.RemoveAll(cacheDir2)
-						os.MkdirAll(cacheDir2, 0o755)
-						runs = append(runs, runT{"reversed-declaration-order-cold", wr, mvs.NewResolver(cacheDir2, wr.Dialer(), nil), config(roots, false), true})
-					}
-					run := runs[ri]
-					before := run.world.Fetches()
-					run.world.TakeFetchLog()
-					out, err, st := g.Run(t, "build-list", func() (any, error) { return mvs.BuildList(ctx, run.cfg, run.res) })
-					t.Add("evaluations", 1)
-					switch st {
-					case mvsfake.Skipped:
-						bad = true
-						continue
-					case mvsfake.Hung:
-						t.Violation("C10:hang", size, fmt.Sprintf("BuildList did not return within 10s (%s run), roots %v", run.name, rootStr()), mk(run.name, "no result"))
-						bad = true
-						continue
-					case mvsfake.Panicked:
-						t.Violation("C10:panic", size, fmt.Sprintf("BuildList panicked (%s run): %v", run.name, err), mk(run.name, err.Error()))
-						bad = true
-						continue
-					}
-					if err != nil {
-						t.Violation("C10:error", size, fmt.Sprintf("BuildList failed on a resolvable universe (%s run): %v", run.name, err), mk(run.name, err.Error()))
-						bad = true
-						continue
-					}
-					got := map[string]string{}
-					for k, v := range out.(map[string]string) {
-						got[k] = v
-					}
-					// the root project reports itself as ""->"": accepted, not required
-					if v, ok := got[""]; ok {
-						if v != "" {
-							t.Violation("C10:root-entry", size, fmt.Sprintf("root entry has version %q", v), mk(run.name, mvsfake.FormatList(got)))
-						}
-						delete(got, "")
-						t.Add("root-self-entries", 1)
-					}
-					fetched := run.world.Fetches() - before
-					if run.cold {
-						t.Add("downloads-cold", fetched)
-					} else {
-						t.Add("downloads-warm", fetched)
-					}
-					for _, l := range run.world.TakeFetchLog() {
-						if !reachKeys[l] {
-							// a download of an unreachable node: the canonical-pair reduction would be unsound
-							t.Add("downloads-beyond-reachable", 1)
-						}
-					}
-					results = append(results, got)
-					kind, detail := diff(got, ref.List)
-					if kind == "" {
-						continue
-					}
-					sig := "C10:" + kind
-					if ri > 0 {
-						if k0, _ := diff(results[0], ref.List); k0 == "" {
-							switch run.name {
-							case "same-resolver-again", "new-resolver-warm-cache-dir":
-								sig = "C10:cache-dependent"
-							case "renamed-requirements":
-								sig = "C10:name-dependent"
-							default:
-								sig = "C10:order-dependent"
-							}
-						}
-					}
-					t.Violation(sig, size, fmt.Sprintf("[%s, %s run] roots %v: %s; got %s", f.Name, run.name, rootStr(), detail, mvsfake.FormatList(got)), mk(run.name, mvsfake.FormatList(got)))
-					bad = true
+				p := &pairCtx{f: f.Family, ui: ui, u: u, w: w, roots: roots, ref: ref, t: t, size: 10*u.Edges() + len(roots)}
+				if f.interrupted {
+					c.interrupted(p)
+				} else {
+					c.pair(p, &wr)
 				}
 				if (ui*31+int64(len(roots)))%20011 == 3 {
-					t.Sample(map[string]any{"family": f.Name, "universe": u.Compact(), "roots": rootStr(), "reference": mvsfake.FormatList(ref.List)})
+					t.Sample(map[string]any{"family": f.Name, "universe": u.Compact(), "roots": p.rootStr(), "reference": mvsfake.FormatList(ref.List)})
 				}
 			}
 		}
@@ -346,28 +580,35 @@ func main() {
 	bounds := map[string]any{}
 	total := int64(0)
 	for i, f := range fams {
-		bounds[f.Name] = map[string]any{"projects": f.Projects, "universes": f.Count(), "root_sets": len(rootSets[i]), "one_repo_per_project": f.Split}
+		bounds[f.Name] = map[string]any{"projects": f.Projects, "universes": f.Count(), "root_sets": len(rootSets[i]), "one_repo_per_project": f.Split,
+			"root_sets_naming_a_project_twice": f.dupRoots, "crash_points_and_parked_downloads": f.interrupted}
 		total += f.Count()
 	}
 	r.Extra["universes_enumerated"] = r.Get("universes")
 	r.Extra["universes_total"] = total
 	r.Extra["pairs_represented"] = r.Get("pairs-represented")
 	r.Extra["skipped_after_hang"] = r.Get("skipped-after-hang")
+	r.Extra["crash_points"] = r.Get("crash-points")
+	r.Extra["parked_download_interleavings"] = r.Get("interleavings")
+	r.Extra["pairs_with_a_project_named_twice"] = r.Get("pairs-with-a-project-named-twice")
 	r.Extra["outcome_classes"] = r.Outcomes("classes")
 	r.Assumptions = []string{
 		"BuildList reports the root project itself as \"\" -> \"\"; that entry is accepted and ignored, every other entry must equal the reference exactly",
 		"a (universe, roots) pair is run once per class of universes that agree on the requirements of all nodes reachable from the roots (the representative gives unreachable nodes no requirements); sound because a node's requirements are only observable by downloading it, and the harness counts downloads beyond the reachable set (0 expected, else the run is reported as capped)",
 		"the repository is an in-memory vcs.Repository (linear history, tags <dir>/<version>, one dawn.toml per project directory) served through the real Resolver, real cache directory on tmpfs and real dawn.toml parser",
+		"a root set may name one project under two or three requirement names at different versions; the reference takes the maximum; such a pair is resolved 8 times (map insertion order alternated) because the order in which Go iterates the requirement map is random",
+		"crash model of the interrupted-fetch family: process death (os.Exit in a child process that shares the cache directory and the temp directory) at every point between two file writes of a checkout; files written so far persist, nothing deferred runs, no file is torn. A checkout writes a stale legacy .dawnconfig (different requirements) first, then dawn.toml, then BUILD.dawn and src/lib.txt. After the death a fresh Resolver in the parent must compute the reference build list. Interleaving model: one download parked between two file writes while a second Resolver on the same cache directory resolves",
 		"hang = no result within 10 s (normal cost < 1 ms)",
 	}
 	r.Finish(vlib.Coverage{
 		Evaluations:        r.Get("evaluations"),
 		DistinctNontrivial: r.Get("nontrivial"),
-		Rule:               "every universe of each family (all requirement functions: each (project,version) requires none or exactly one version of each other project) x every root set with <=1 version per project, reduced to pairs whose unreachable nodes have no requirements; 5 resolutions per pair (cold, same resolver, new resolver on warm cache dir, renamed root requirement names, reversed declaration/tag order on a second cold cache); non-trivial = reference build list selects >= 2 projects",
+		Rule:               "every universe of each family (all requirement functions: each (project,version) requires none or exactly one version of each other project) x every root set with <=1 version per project, plus root sets naming one project 2-3 times at different versions, reduced to pairs whose unreachable nodes have no requirements; 5 resolutions per pair (cold, same resolver, new resolver on warm cache dir, renamed root requirement names, reversed declaration/tag order on a second cold cache), 8 when a project is named twice; interrupted-fetch family: per pair x reachable project version x k, one real process death after k files and one parked download; non-trivial = reference build list selects >= 2 projects",
 		States:             r.Get("pairs"),
 		Transitions:        r.Get("evaluations"),
+		TracesValidated:    r.Get("crash-points") + r.Get("interleavings"),
 		Exhaustive:         true,
-		Outcomes:           r.NumOutcomes("classes"),
+		Outcomes:           r.NumOutcomes("classes") + r.NumOutcomes("crash-classes"),
 		Bounds:             bounds,
 	})
 }
